@@ -16,7 +16,7 @@ CFG = dict(
     level_note='Trusted: Coq kernel; the POSIX crash model of Model/FS.v; strace + tools/fsreplay.py; Parquet/JSON byte formats are abstracted '
                '(a batch/metadata file parses only when complete; a WAL is a list of records, a torn record is skipped - validated on every '
                'reconstructed state). Relation drop, KG drop, batched/async durability modes and crashes during recovery are not exercised.',
-    bin='c13', n_quick=48, n_thorough=800, run_timeout=3300,
+    bin='c13', n_quick=48, n_thorough=400, run_timeout=3300,
     corr_name='Model/Persist.v + Model/FS.v vs FilePersist/PersistWal/StorageEngine::new (syscall trace, live contents, recovered contents)',
     rule='hand-written corpus (flush on every write, WAL-only + restart, multi-tuple batch, save+compaction over two shards, duplicate insert / '
          'absent delete) then random histories of 1-7 operations (insert/delete of 1-3 tuples over 4 values into 2 relations, save, compact, '
